@@ -301,7 +301,7 @@ func record(e eng.Engine, master, idx, rs uint64, t *tape.Tape, v eng.Violation,
 		// A task is stuck outside the scheduler: nothing more may run in this process. The
 		// unshrunk tape is recorded; replay happens in a fresh process.
 		rf := ReplayFile{Property: v.Property, Engine: e.Name(), Rule: v.Rule, MasterSeed: master, RunIndex: idx, RunSeed: rs,
-			Build: map[string]any{"tags": "verif", "race": sched.RaceOn}, Tape: t.Record(), SchedHash: "", Violation: v, Original: orig,
+			Build: map[string]any{"tags": "verif", "race": sched.RaceOn, "autoyield": world.AutoMode}, Tape: t.Record(), SchedHash: "", Violation: v, Original: orig,
 			Note: "not minimised: the code under test hung or spun outside the scheduler, which poisons the process"}
 		os.MkdirAll(dir, 0o755)
 		path := filepath.Join(dir, fmt.Sprintf("%s-%s-%d-hang.json", v.Property, e.Name(), idx))
@@ -327,7 +327,7 @@ func record(e eng.Engine, master, idx, rs uint64, t *tape.Tape, v eng.Violation,
 		}
 	}
 	rf := ReplayFile{Property: v.Property, Engine: e.Name(), Rule: v.Rule, MasterSeed: master, RunIndex: idx, RunSeed: rs,
-		Build: map[string]any{"tags": "verif", "race": sched.RaceOn}, Tape: tt.Record(), SchedHash: strconv.FormatUint(r.SchedHash, 16),
+		Build: map[string]any{"tags": "verif", "race": sched.RaceOn, "autoyield": world.AutoMode}, Tape: tt.Record(), SchedHash: strconv.FormatUint(r.SchedHash, 16),
 		Violation: *fv, Trace: r.Trace, Original: orig, Attempts: attempts, Note: note}
 	os.MkdirAll(dir, 0o755)
 	h := eng.Hash64(0, class)
